@@ -19,6 +19,7 @@ import Goat.Driver.Backtrace
 import Goat.Driver.MiniGo
 import Goat.Driver.Resolve
 import Goat.Driver.Struct
+import Goat.Driver.Tuple
 /-! goatmodel: one operation per input line, one canonical output line per operation. -/
 open Goat.Driver
 
@@ -51,6 +52,7 @@ def step (st : DriverState) (line : String) : DriverState × String :=
   | "slice" :: args => let (s, o) := sliceCmd st.slice args; ({ st with slice := s }, o)
   | "call" :: args => (st, callCmd args)
   | "cf" :: args => (st, cfCmd args)
+  | "ta" :: args => (st, taCmd args)
   | "st" :: args => let (h, o) := stCmd st.st args; ({ st with st := h }, o)
   | "imap" :: args => let (s, o) := imapCmd st.imap args; ({ st with imap := s }, o)
   | "verify" :: args => (st, verifyCmd args)
